@@ -12,6 +12,7 @@ CONSTANTS
  AllowWith = TRUE
  AllowVars = FALSE
  MaxUses = 1
+ OldWith = FALSE
  RestoreOwn = FALSE
-INVARIANTS FlagAsMeant StackDepth CaptureFree NoCollision PublicUnchanged NoReserved WithOwn Emit
+INVARIANTS FlagAsMeant StackDepth CaptureFree NoCollision PublicUnchanged NoReserved WithOwn WithCross Emit
 CHECK_DEADLOCK FALSE
